@@ -230,6 +230,8 @@ type recObs struct {
 	pub    *share.PubPoly
 	pubErr bool
 	panics string
+	inputs   string // non-empty: the caller's share slices were changed by the calls
+	unstable string // non-empty: a second call on the same slices gave another result
 }
 
 type polyCtx struct {
@@ -244,6 +246,7 @@ type polyCtx struct {
 	idx    []uint32 // the share indices (position -> index); 0..n-1 for Shares(n)
 	shm    map[uint32]*share.PriShare
 	pshm   map[uint32]*share.PubShare
+	twice  bool // call every Recover* twice on the same slices
 }
 
 func (c *polyCtx) indexShares() {
@@ -343,6 +346,7 @@ func (c *polyCtx) recover(es []ent) recObs {
 	g := c.G.g
 	t, n := uint32(c.t), uint32(c.n)
 	var ps2 []string
+	snap := snapShares(ps, qs)
 	if p, m := vh.Try(func() {
 		s, err := share.RecoverSecret(g, ps, t, n)
 		o.sec, o.secErr = s, err != nil
@@ -372,6 +376,27 @@ func (c *polyCtx) recover(es []ent) recObs {
 		o.pubErr = true
 	}
 	o.panics = strings.Join(ps2, "; ")
+	o.inputs = snap.diff(ps, qs)
+	if c.twice || len(es)%4 == 0 {
+		// the same slices again: same results, slices still intact
+		var o2 recObs
+		vh.Try(func() {
+			s, err := share.RecoverSecret(g, ps, t, n)
+			o2.sec, o2.secErr = s, err != nil
+			q, err := share.RecoverCommit(g, qs, t, n)
+			o2.com, o2.comErr = q, err != nil
+			pp, err := share.RecoverPriPoly(g, ps, t, n)
+			o2.pri, o2.priErr = pp, err != nil
+			qq, err := share.RecoverPubPoly(g, qs, t, n)
+			o2.pub, o2.pubErr = qq, err != nil
+		})
+		if o.panics == "" {
+			o.unstable = recDiff(o, o2)
+		}
+		if d := snap.diff(ps, qs); d != "" && o.inputs == "" {
+			o.inputs = d
+		}
+	}
 	return o
 }
 
@@ -396,6 +421,12 @@ func (c *polyCtx) oracleRecover(rep *vh.Report, es []ent, distinct int, o recObs
 	}
 	if o.panics != "" {
 		fail("Recover", "panic", "panic: "+o.panics)
+	}
+	if o.inputs != "" {
+		fail("Recover", "inputs-mutated", "the caller's share slice was changed by Recover*: "+o.inputs)
+	}
+	if o.unstable != "" {
+		fail("Recover", "second-call-differs", "a second call on the same slice gave another result: "+o.unstable)
 	}
 	enough := distinct >= c.t
 	secretCommit := mulBase(g, c.coeffs[0], c.base)
@@ -846,7 +877,7 @@ func main() {
 	o := vh.ParseFlags()
 	rng := vh.NewRng(o.Seed)
 	rep := vh.NewReport("C07", o.Seed, o.Tier)
-	rep.Rule = "dlog group (order 2^61-1), model correspondence: every (t,n) with 1<=t<=n<=8 (thorough 12), secrets 0/1/-1/random, bases nil/multiple/picked; for n<=6 (thorough 7) every subset of size >= t-1 as a natural slice (nil where missing) and as shuffled slices with duplicates, nil holes and V=nil shares, random subsets above; Shares/Commit/Eval/Check (honest, off-by-one, random, moved index); Add/Mul/Equal on thresholds 0..6. Size boundaries in every run: thresholds 13..24 with n up to 24 (lowest / highest / random / surplus / t-1 subsets; RecoverSecret+RecoverCommit exact for all, full interpolation exact for three), Shares/Commit/Check and Add/Mul at thresholds up to 24, sharings at indices around 2^31 and 2^32; the same as oracles on every group. Oracles on Ed25519, P-256, BN256 G1, BLS12-381 G1 (kilic), QR-512 and the dlog group: (t,n) up to 12 (thorough 24) with exhaustive subsets for small n and random subsets otherwise. distinct = distinct canonical case text; non-trivial = recovery with t >= 2 from a slice that is not the natural full one, polynomial cases with t >= 2, arithmetic cases with both thresholds >= 2"
+	rep.Rule = "dlog group (order 2^61-1), model correspondence: every (t,n) with 1<=t<=n<=8 (thorough 12), secrets 0/1/-1/random, bases nil/multiple/picked; for n<=6 (thorough 7) every subset of size >= t-1 as a natural slice (nil where missing) and as shuffled slices with duplicates, nil holes and V=nil shares, random subsets above; Shares/Commit/Eval/Check (honest, off-by-one, random, moved index); Add/Mul/Equal on thresholds 0..6. Size boundaries in every run: thresholds 13..24 with n up to 24 (lowest / highest / random / surplus / t-1 subsets; RecoverSecret+RecoverCommit exact for all, full interpolation exact for three), Shares/Commit/Check and Add/Mul at thresholds up to 24, sharings at indices around 2^31 and 2^32; the same as oracles on every group. Object history (every run, every group): sessions on ONE PriPoly/PubPoly object in which the values returned by Eval, Shares, PubPoly.Commit, PriPoly.Commit, Add, Mul, PubPoly.Add and the four Recover functions are overwritten in place by the caller and the whole object (coefficients, commitments, Eval, Check, dealt shares, recovery) is re-verified against independent copies after every step, operands and share slices are snapshotted around the calls (inputs intact, order intact, second call equal), and the aged object is compared with the model once more; Recover* on values that are not shares of one polynomial (gapped / large indices, surplus, holes, duplicates): exact model comparison, t-lowest-indices subset, private = public subset, permutation independence. Oracles on Ed25519, P-256, BN256 G1, BLS12-381 G1 (kilic), QR-512 and the dlog group: (t,n) up to 12 (thorough 24) with exhaustive subsets for small n and random subsets otherwise. distinct = distinct canonical case text; non-trivial = recovery with t >= 2 from a slice that is not the natural full one, polynomial cases with t >= 2, arithmetic cases with both thresholds >= 2"
 	cf := &vh.CaseFile{Header: "From Kyber Require Import Share.ShamirSM Share.ShamirRun.", Type: "case", Runner: "mismatches"}
 	G := groups(o.Seed, o.Search)
 	dl := G[0]
@@ -1000,6 +1031,96 @@ func main() {
 				rep.Index(id, c.replay(es, map[string]interface{}{"what": "Recover* on shares at indices around 2^31 / 2^32", "subset": sub}))
 				id++
 			}
+		}
+	}
+
+	// ---------------- object history and unrelated values over the dlog group (exact correspondence)
+	if !o.Search {
+		for _, tn := range [][2]int{{1, 1}, {1, 3}, {2, 2}, {2, 4}, {3, 4}, {3, 5}, {4, 6}, {5, 5}} {
+			for k := 0; k < 4; k++ {
+				r := rng.Fork()
+				c := runSession(dl, rep, r, tn[0], tn[1], nSessionOps+r.Intn(6))
+				// the aged object against the model
+				term := c.coqPoly(id, r)
+				cf.Items = append(cf.Items, term)
+				rep.Count(term, true)
+				rep.Dist("reuse:final-model-comparison")
+				rep.Index(id, c.replay(nil, map[string]interface{}{"what": "Shares/Commit/Eval/Check of an object after a history of operations whose results were overwritten"}))
+				id++
+				sub := randomSubset(r, c.n, c.t+r.Intn(c.n-c.t+1))
+				es := arrange(r, sub, c.n, false)
+				ob := c.recover(es)
+				c.oracleRecover(rep, es, len(sub), ob)
+				term = c.coqRec(id, es, ob)
+				cf.Items = append(cf.Items, term)
+				rep.Count(term, true)
+				rep.Index(id, c.replay(es, map[string]interface{}{"what": "Recover* from the shares dealt before the history"}))
+				id++
+			}
+		}
+		for t := 1; t <= 5; t++ {
+			for k := 0; k < 24; k++ {
+				r := rng.Fork()
+				n := t - 1 + r.Intn(7)
+				var idx []uint32
+				if k%3 == 0 {
+					for i := 0; i < n; i++ {
+						idx = append(idx, uint32(i))
+					}
+				} else {
+					idx = gappedIndices(r, n)
+				}
+				c := unrelatedCtx(dl, r, t, idx)
+				lo := t - 1
+				if lo > n {
+					lo = n
+				}
+				sub := randomSubset(r, n, lo+r.Intn(n-lo+1))
+				es := c.reindex(arrange(r, sub, n, k%4 == 0))
+				c.twice = k%2 == 0
+				ob := c.recover(es)
+				c.oracleUnrelated(rep, r, es, len(sub), ob)
+				term := c.coqRec(id, es, ob)
+				cf.Items = append(cf.Items, term)
+				rep.Count(term, t >= 2)
+				rep.Dist("reuse:unrelated-values")
+				rep.Index(id, c.replay(es, map[string]interface{}{"what": "Recover* on values that are not shares of one polynomial", "subset": sub}))
+				id++
+			}
+		}
+	}
+
+	// ---------------- object history and unrelated values over all groups (oracles)
+	for gi, g := range G {
+		ns, nu := 12, 40
+		if gi >= 2 {
+			ns, nu = 3, 8
+		}
+		if o.Thorough || o.Search {
+			ns, nu = 3*ns, 3*nu
+		}
+		for k := 0; k < ns; k++ {
+			r := rng.Fork()
+			t := 1 + r.Intn(4)
+			n := t + r.Intn(3)
+			runSession(g, rep, r, t, n, nSessionOps)
+			rep.Dist("reuse:session:" + g.name)
+		}
+		for k := 0; k < nu; k++ {
+			r := rng.Fork()
+			t := 1 + r.Intn(5)
+			n := t - 1 + r.Intn(7)
+			c := unrelatedCtx(g, r, t, gappedIndices(r, n))
+			lo := t - 1
+			if lo > n {
+				lo = n
+			}
+			sub := randomSubset(r, n, lo+r.Intn(n-lo+1))
+			es := c.reindex(arrange(r, sub, n, k%4 == 0))
+			c.twice = k%2 == 0
+			ob := c.recover(es)
+			c.oracleUnrelated(rep, r, es, len(sub), ob)
+			rep.Dist("reuse:unrelated-values:" + g.name)
 		}
 	}
 
